@@ -1,4 +1,4 @@
-From V Require Import model.Base model.Conc model.Events model.SpscQueue model.OverflowQueue.
+From V Require Import model.Base model.Conc model.Events model.SpscQueue model.OverflowQueue model.SpscQueueRA.
 Require Extraction.
 Require Import ExtrOcamlBasic.
 Extraction Language OCaml.
@@ -12,4 +12,15 @@ Definition oq_init := OverflowQueue.init.
 Definition oq_content := OverflowQueue.content.
 Definition oq_push (v : N) := OverflowQueue.OPush v.
 Definition oq_ops := (OverflowQueue.OAcqP, OverflowQueue.ORelP, OverflowQueue.OAcqC, OverflowQueue.ORelC, OverflowQueue.OPop).
-Extraction "../ocaml/c03/model.ml" spsc_step1 spsc_init spsc_content spsc_push spsc_ops oq_step1 oq_init oq_content oq_push oq_ops N.of_nat N.to_nat.
+Definition ra_step1 (O : ords) := Conc.step1 (SpscQueueRA.rstep O).
+Definition ra_init := SpscQueueRA.rinit.
+Definition ra_mk_ords := SpscQueueRA.Build_ords.
+Definition ra_ords_code := SpscQueueRA.ords_code.
+Definition ra_set_oracle (g : rgst) (o : list N) : rgst :=
+  {| rcap := rcap g; rwp := rwp g; rrp := rrp g; rslots := rslots g; oracle := o; race := race g;
+     rpushed := rpushed g; rpopped := rpopped g |}.
+Definition ra_race := SpscQueueRA.race.
+Definition ra_oracle := SpscQueueRA.oracle.
+Definition ra_conserving (g : rgst) : bool :=
+  if list_eq_dec N.eq_dec (rpushed g) (rpopped g ++ rcontent g) then true else false.
+Extraction "../ocaml/c03/model.ml" ra_step1 ra_init ra_mk_ords ra_ords_code ra_set_oracle ra_race ra_oracle ra_conserving spsc_step1 spsc_init spsc_content spsc_push spsc_ops oq_step1 oq_init oq_content oq_push oq_ops N.of_nat N.to_nat.
